@@ -12,7 +12,7 @@ class C05(RecorderProp):
             'itself closes at every point (before, between and after its interceptions, explicit flushes in between): what the '
             'wrapped cassette then holds replays without a missing key or is flagged incomplete; non-trivial = a run that opened a '
             'recording scope')
-    OPTS = dict(ALL_OPTS, play_ratio=0.0, missing_play=False, cassettes=['memory', 'memory', 'file', 's3'], runs=(1, 3),
+    OPTS = dict(ALL_OPTS, play_ratio=0.0, missing_play=False, cassettes=['memory', 'memory', 'file', 's3', 'async'], runs=(1, 3),
                 data=False)   # play_data answers differently while recording and replaying: not 'the same deterministic code'
     N = {'quick': 2500, 'thorough': 25000}
 
